@@ -143,7 +143,9 @@ def comparator(ctx, rid_override):
                    "`%s.%s` is read on both operands in a symmetric position" % (adt, f),
                    "the shape comparator never compares `%s.%s` of the two types: two definitions that differ only there are judged equal and share one generated item" % (adt, f))
     # zipped collections must be guarded by an EQUALITY comparison of their lengths (zip silently truncates)
-    zips = [n for n in walk(fn["body"]) if n.get("k") == "MethodCall" and cshort(n.get("callee", "")) == "Iterator::zip" and n["args"]]
+    # (`a.iter().zip(b)` as a method call, or the free function `std::iter::zip(a, b)`: (node, left operand, right operand))
+    zips = [(n, n["recv"], n["args"][0]) for n in walk(fn["body"]) if n.get("k") == "MethodCall" and cshort(n.get("callee", "")) == "Iterator::zip" and n["args"]]
+    zips += [(n, n["args"][0], n["args"][1]) for n in walk(fn["body"]) if n.get("k") == "Call" and cshort(n.get("callee", "")) == "iter::zip" and len(n["args"]) == 2]
     lens = []
     for n in walk(fn["body"]):
         if n.get("k") == "Binary" and n["op"] in ("==", "!=", "<", ">", "<=", ">="):
@@ -151,8 +153,8 @@ def comparator(ctx, rid_override):
             if l.get("k") == "MethodCall" and r.get("k") == "MethodCall" and l["name"] == "len" and r["name"] == "len":
                 lens.append((show(N.term(l["recv"])), show(N.term(r["recv"])), n["op"], n))
     ctx.count("zipped collection pairs in the comparator", len(zips), 3)
-    for z in zips:
-        a, b = show(N.term(z["recv"])), show(N.term(z["args"][0]))
+    for z, za, zb in zips:
+        a, b = show(N.term(za)), show(N.term(zb))
         ops = [op for x, y, op, _n in lens if {x, y} == {a, b}]
         key = "comparator-length/" + (a.split("@")[-1].split(".")[-1] if "@" in a or "." in a else a)[:40]
         ctx.expect(bool(ops) and all(op in ("==", "!=") for op in ops), R2, key, site(z),
